@@ -305,7 +305,7 @@ func checkC03(c *Ctx) {
 
 	// C03.8 the gates compare the proposal with what its certificate claims (view, block): the certificate verifier
 	// must bind those claims to the signed block (shared with C02.1 / C02.3)
-	c.importFrom(checkC02, "C03.8", "C02.1", "C02.3")
+	c.importFrom(checkC02, "C03.8", "C02.1", "C02.3", "C02.7")
 
 	// C03.9 what OnValidPropose hands to the aggregator is the certificate of a vote that succeeded: after a refused vote
 	// (already voted in this view) nothing is sent under this replica's name
